@@ -117,7 +117,11 @@ func renderZone(r *Rng, ls []zline, style int, parenNewlineOnly bool) string {
 	eol := func() string {
 		s := ""
 		if style != 0 && r.Chance(25) {
-			s += sep() + "; a comment ( with ) \" odd things"
+			// a comment starts at the semicolon, with or without a blank in front of it (RFC 1035 5.1)
+			if !r.Chance(30) {
+				s += sep()
+			}
+			s += "; a comment ( with ) \" odd things"
 		}
 		if style != 0 && r.Chance(15) {
 			return s + "\r\n"
@@ -146,12 +150,32 @@ func renderZone(r *Rng, ls []zline, style int, parenNewlineOnly bool) string {
 				sb.WriteString(l.owner)
 			}
 			sb.WriteString(sep())
+			// the parenthesis may open right after the owner: TTL, class and type can then sit on lines of their own,
+			// each possibly followed by a comment
+			early := style != 0 && !parenNewlineOnly && r.Chance(20)
+			hsep := sep
+			if early {
+				sb.WriteString("(" + sep())
+				hsep = func() string {
+					if r.Chance(50) {
+						return sep()
+					}
+					s := ""
+					if r.Bool() {
+						s = sep()
+					}
+					if r.Chance(60) {
+						s += ";h" + fmt.Sprint(r.Intn(10))
+					}
+					return s + "\n" + sep()
+				}
+			}
 			tt, cc := "", ""
 			if l.ttl >= 0 {
-				tt = ttlText(r, l.ttl, style == 0) + sep()
+				tt = ttlText(r, l.ttl, style == 0) + hsep()
 			}
 			if l.cls >= 0 {
-				cc = kw(dns.Class(l.cls).String()) + sep()
+				cc = kw(dns.Class(l.cls).String()) + hsep()
 			}
 			if l.ttlFirst {
 				sb.WriteString(tt + cc)
@@ -159,15 +183,19 @@ func renderZone(r *Rng, ls []zline, style int, parenNewlineOnly bool) string {
 				sb.WriteString(cc + tt)
 			}
 			sb.WriteString(kw(dns.Type(l.typ).String()))
-			paren := style != 0 && len(l.rdata) >= 2 && r.Chance(50)
-			if paren {
+			paren := early || (style != 0 && len(l.rdata) >= 2 && r.Chance(50))
+			if paren && !early {
 				sb.WriteString(sep() + "(")
+			}
+			if early && len(l.rdata) > 0 && r.Chance(40) {
+				// a comment right behind the type mnemonic
+				sb.WriteString(";t\n")
 			}
 			for i, tok := range l.rdata {
 				if paren && (i > 0 || r.Bool()) && r.Chance(60) {
 					// a line break inside the parentheses, optionally after a comment
 					if r.Chance(30) && !parenNewlineOnly {
-						sb.WriteString(" ; c" + fmt.Sprint(i))
+						sb.WriteString([]string{" ; c", ";c", " ;c"}[r.Intn(3)] + fmt.Sprint(i))
 					}
 					sb.WriteString("\n")
 					if !parenNewlineOnly {
